@@ -90,6 +90,19 @@ class IndexExpander(ReuseTransformer):
 
         return x._ufl_class_(x.value())
 
+    def variable(self, x):
+        """Apply to variable.
+
+        The expansion of a tensor-valued variable, or of one with free
+        indices, depends on the component and index values currently
+        in effect, so the label-keyed variable cache must not be used
+        for it: expand the expression the variable represents instead.
+        """
+        e, _label = x.ufl_operands
+        if e.ufl_shape == () and not e.ufl_free_indices:
+            return self.reuse_variable(x)
+        return self.visit(e)
+
     def conditional(self, x):
         """Apply to conditional."""
         c, t, f = x.ufl_operands
